@@ -103,3 +103,24 @@ Theorem C14_jitter_negative_witness :
   (forall n, inner_answer envJ q fire1 n -> n + lo <= fire2 -> n = b).
 Proof. exact jitter_negative_refuted_concrete. Qed.
 Print Assumptions C14_jitter_negative_witness.
+
+(* ---- the tie to the source by translation: coq/gen/GenProd.v is regenerated from src/eascheduler/producers/*.py and
+   helpers/time_replace.py on every run (tools/gen_prod.py); these theorems are re-checked against it.  [pknot E n] is
+   the generated code closed by dispatch on the class of the object; [lift] reads a model answer as an outcome of the
+   generated code (value + producer state / exception / out of fuel). *)
+From EAS Require GenRtProd GenProdEq.
+Theorem C14_generated_source_recognised : EASGen.GenProd.gen_prod_status_v = EASGen.GenProd.GenProdOk.
+Proof. exact GenProdEq.gen_prod_recognised. Qed.
+Print Assumptions C14_generated_source_recognised.
+Theorem C14_generated_answer_iff : forall E n p dt st st' v, wf_producer p -> (GenProdEq.rank p <= n)%nat ->
+  (GenRtProd.r_get_next (GenProdEq.pknot E n) p dt st = Some (st', GenRtProd.PRet v) <-> get_next E p st dt = (Ok v, st')).
+Proof. exact GenProdEq.gen_answer_iff. Qed.
+Print Assumptions C14_generated_answer_iff.
+(* two consecutive answers of the generated offset trigger belong to strictly increasing occurrences *)
+Theorem C14_generated_offset_chain_injective : forall E n q off f st1 d0 v1 st2 v2 st3,
+  wf_producer q -> (GenProdEq.rank (POffset q off f) <= n)%nat ->
+  GenRtProd.r_get_next (GenProdEq.pknot E n) (POffset q off f) d0 st1 = Some (st2, GenRtProd.PRet v1) ->
+  GenRtProd.r_get_next (GenProdEq.pknot E n) (POffset q off f) v1 st2 = Some (st3, GenRtProd.PRet v2) ->
+  exists n1 n2, inner_answer E q d0 n1 /\ inner_answer E q v1 n2 /\ v1 = n1 + off /\ v2 = n2 + off /\ n1 < n2.
+Proof. exact GenProdEq.gen_offset_chain_injective. Qed.
+Print Assumptions C14_generated_offset_chain_injective.
